@@ -7,6 +7,9 @@ mod state;
 #[cfg(test)]
 mod tests;
 
+#[cfg(feature = "verif")]
+pub mod verif;
+
 use crate::de::PacketReader;
 use crate::ser::MAX_FIXED_HEADER_SIZE;
 use crate::types::Auth;
